@@ -47,6 +47,7 @@ func (p c08) Run(runseed uint64, tier string, acc *Acc) []*core.Violation {
 		acc.Inc("class/huge-footer")
 	}
 	fo.LargePct = 1
+	fo.GiantPct = 5
 	if tier == "thorough" {
 		fo.LargePct = 2
 	}
@@ -57,10 +58,10 @@ func (p c08) Run(runseed uint64, tier string, acc *Acc) []*core.Violation {
 		return nil
 	}
 	limit := 2*len(f.Want) + 16
-	base, bsrc := baselineRead(f.W.Shape, f.Data, "rs", limit)
-	baseB, _ := baselineRead(f.W.Shape, f.Data, "rsb", limit)
-	baseX, _ := baselineRead(f.W.Shape, f.Data, "rsx", limit)
-	baseF, _ := baselineRead(f.W.Shape, f.Data, "rsf", limit)
+	base, bsrc := baselineRead(f.W.ReadShape(), f.Data, "rs", limit)
+	baseB, _ := baselineRead(f.W.ReadShape(), f.Data, "rsb", limit)
+	baseX, _ := baselineRead(f.W.ReadShape(), f.Data, "rsx", limit)
+	baseF, _ := baselineRead(f.W.ReadShape(), f.Data, "rsf", limit)
 	if !usableBaseline(base, f.Want) || !usableBaseline(baseB, f.Want) || !usableBaseline(baseX, f.Want) || !usableBaseline(baseF, f.Want) {
 		acc.Unusable++
 		return nil
@@ -68,6 +69,9 @@ func (p c08) Run(runseed uint64, tier string, acc *Acc) []*core.Violation {
 	acc.MixFP(f.Digest)
 	acc.Inc("codec/" + f.W.Codec)
 	acc.Inc("shape/" + f.W.Shape)
+	if f.W.ReadAs != "" {
+		acc.Inc("reader/permuted-struct")
+	}
 	maxReq := bsrc.Stats.MaxReadReq
 	var frags []core.Frag
 	kinds := []string{"rs", "rsb", "rsx", "rsf"}
@@ -91,6 +95,9 @@ func (p c08) Run(runseed uint64, tier string, acc *Acc) []*core.Violation {
 	if f.W.Many {
 		acc.Inc("class/many-row-groups")
 	}
+	if f.W.Giant {
+		acc.Inc("class/giant-page")
+	}
 	if f.W.Huge {
 		acc.Inc("class/huge-values")
 	}
@@ -100,7 +107,7 @@ func (p c08) Run(runseed uint64, tier string, acc *Acc) []*core.Violation {
 			if r.Intn(maxReq) < 64 {
 				addAll(core.Frag{Policy: "fixed", Arg: c})
 			}
-		case f.W.Large || (f.W.Many && len(f.Data) > 100000): // a large file costs ~30 ms per read: every c <= 16 and a sample
+		case f.W.Large || f.W.Giant || (f.W.Many && len(f.Data) > 100000): // a large file costs ~30 ms per read: every c <= 16 and a sample
 			if c <= 16 || r.Chance(1, 16) {
 				addAll(core.Frag{Policy: "fixed", Arg: c})
 			}
@@ -166,7 +173,7 @@ func (p c08) check(c *core.Case, f *fileWL, base *core.ReadResult) (*core.Violat
 	src := core.NewSource(f.Data, c.Frag, nil)
 	src.MaxCalls = 400000 + 400*len(f.Data)
 	limit := 2*len(base.Recs) + 16
-	rr := core.ExecReader(f.W.Shape, src.AsReadSeeker(kindOr(c.SourceKind)), limit, nil)
+	rr := core.ExecReader(f.W.ReadShape(), src.AsReadSeeker(kindOr(c.SourceKind)), limit, nil)
 	mk := func(sig, detail string) (*core.Violation, core.SrcStats) {
 		fr := c.Frag
 		return &core.Violation{Prop: "C08", Sig: "C08/" + sig + "/" + f.W.Codec,
@@ -201,7 +208,7 @@ func (p c08) Check(c *core.Case) (*core.Violation, error) {
 	if err != nil {
 		return nil, err
 	}
-	base, _ := baselineRead(f.W.Shape, f.Data, kindOr(c.SourceKind), 2*len(f.Want)+16)
+	base, _ := baselineRead(f.W.ReadShape(), f.Data, kindOr(c.SourceKind), 2*len(f.Want)+16)
 	if !usableBaseline(base, f.Want) {
 		return nil, fmt.Errorf("fault-free read of the case's file is not usable as a reference")
 	}
